@@ -1,7 +1,10 @@
 (* C15 -- browser-side patch and decision application agree with the Python side.
    Statements only; models in Ts/*.v, proofs in Ts/*Proofs.v. *)
 From Coq Require Import List NArith.
-From NB Require Import Base.Json Base.PyStr Ts.TsSplit Ts.TsSplitProofs.
+From NB Require Import Base.Json.
+From NB Require Import Base.PyStr.
+From NB Require Import Ts.TsSplit.
+From NB Require Import Ts.TsSplitProofs.
 Import ListNotations.
 
 Theorem splitlines_ts_agrees :
